@@ -8,16 +8,23 @@ package daemon
 // service is built from the snapshot exactly as a restarted daemon would be, and checked.
 
 import (
+	"bufio"
 	"context"
+	"encoding/json"
 	"fmt"
 	"os"
+	"os/exec"
 	"sort"
+	"strings"
+	"syscall"
 	"testing"
 	"time"
 
 	"pgregory.net/rapid"
 
 	"github.com/AliyunContainerService/terway/pkg/eni"
+	"github.com/AliyunContainerService/terway/pkg/storage"
+	"github.com/AliyunContainerService/terway/types/daemon"
 	"github.com/AliyunContainerService/terway/zz_verif/cloudsim"
 	"github.com/AliyunContainerService/terway/zz_verif/vt"
 )
@@ -443,3 +450,206 @@ func c05Desc(sn c05Snap) string {
 }
 
 func TestVerifC05Restart(t *testing.T) { vt.Run(t, c05Gen, c05Run) }
+
+// ------------------------------------------------------------------ SIGKILL tier
+//
+// "An acknowledged ADD or DEL is durable: the on-disk record reflects it even after the
+// process is killed." A child process (this test binary re-executed) performs a generated
+// stream of Put/Delete on a real DiskStorage and prints one ack line after each call
+// returned; the parent kills it with SIGKILL after a drawn number of acks plus a drawn
+// delay, reopens the file with the real loader and compares with the acknowledged prefix.
+
+type c05KillOp struct {
+	Del  bool `json:"del"`
+	Key  int  `json:"key"`
+	Size int  `json:"size"`
+}
+
+type c05KillScenario struct {
+	Ops       []c05KillOp `json:"ops"`
+	KillAfter int         `json:"kill_after"` // number of acks to wait for before the kill
+	DelayUS   int         `json:"delay_us"`
+}
+
+func c05KillGen(t *rapid.T) c05KillScenario {
+	s := c05KillScenario{}
+	n := rapid.IntRange(1, vt.Scale(40, 120)).Draw(t, "nops")
+	for i := 0; i < n; i++ {
+		s.Ops = append(s.Ops, c05KillOp{
+			Del:  rapid.IntRange(0, 3).Draw(t, "del") == 0,
+			Key:  rapid.IntRange(0, 5).Draw(t, "key"),
+			Size: rapid.IntRange(0, 3000).Draw(t, "size"),
+		})
+	}
+	s.KillAfter = rapid.IntRange(0, n).Draw(t, "killafter")
+	s.DelayUS = rapid.IntRange(0, 600).Draw(t, "delay")
+	return s
+}
+
+func c05KillValue(i int, o c05KillOp) daemon.PodResources {
+	cid := fmt.Sprintf("cid-%d", i)
+	return daemon.PodResources{
+		PodInfo:     &daemon.PodInfo{Name: fmt.Sprintf("k%d", o.Key), Namespace: "ns", PodUID: fmt.Sprintf("uid-%d", i)},
+		Resources:   []daemon.ResourceItem{{Type: daemon.ResourceTypeENIIP, ID: fmt.Sprintf("op-%d", i), ENIID: "eni-1", IPv4: "10.0.0.1"}},
+		ContainerID: &cid,
+		NetConf:     strings.Repeat("x", o.Size),
+	}
+}
+
+// TestVerifC05SigkillChild is the child side; it only runs when re-executed by the parent.
+func TestVerifC05SigkillChild(t *testing.T) {
+	path := os.Getenv("VERIF_C05_CHILD_DB")
+	if path == "" {
+		t.Skip("child of TestVerifC05Sigkill")
+	}
+	var s c05KillScenario
+	if err := json.Unmarshal([]byte(os.Getenv("VERIF_C05_CHILD_OPS")), &s); err != nil {
+		fmt.Println("bad ops", err)
+		os.Exit(3)
+	}
+	db, err := vsOpenDB(path)
+	if err != nil {
+		fmt.Println("open", err)
+		os.Exit(3)
+	}
+	os.Stdout.WriteString("ready\n")
+	for i, o := range s.Ops {
+		key := fmt.Sprintf("ns/k%d", o.Key)
+		if o.Del {
+			err = db.Delete(key)
+		} else {
+			err = db.Put(key, c05KillValue(i, o))
+		}
+		if err != nil {
+			fmt.Println("op error", err)
+			os.Exit(3)
+		}
+		os.Stdout.WriteString(fmt.Sprintf("ack %d\n", i))
+	}
+	os.Stdout.WriteString("done\n")
+	// stay alive until killed so that the parent decides the instant
+	time.Sleep(10 * time.Second)
+	os.Exit(0)
+}
+
+func c05KillRun(c *vt.Ctx, s c05KillScenario) {
+	dir := vsScratchDir()
+	defer os.RemoveAll(dir)
+	path := dir + "/kill.db"
+	opsJSON, _ := json.Marshal(s)
+	cmd := exec.Command(os.Args[0], "-test.run", "^TestVerifC05SigkillChild$")
+	cmd.Env = append(os.Environ(), "VERIF_C05_CHILD_DB="+path, "VERIF_C05_CHILD_OPS="+string(opsJSON), "VERIF_OUT=", "VERIF_REPLAY=")
+	out, err := cmd.StdoutPipe()
+	if err != nil {
+		c.Inconclusive("pipe")
+	}
+	if err := cmd.Start(); err != nil {
+		c.Inconclusive("child start: " + err.Error())
+	}
+	acks := 0
+	killed := false
+	lines := make(chan string, 1024)
+	go func() {
+		sc := bufio.NewScanner(out)
+		for sc.Scan() {
+			lines <- sc.Text()
+		}
+		close(lines)
+	}()
+	kill := func() {
+		if !killed {
+			killed = true
+			if s.DelayUS > 0 {
+				time.Sleep(time.Duration(s.DelayUS) * time.Microsecond)
+			}
+			_ = cmd.Process.Signal(syscall.SIGKILL)
+		}
+	}
+	ready := false
+	deadline := time.After(20 * time.Second)
+loop:
+	for {
+		select {
+		case l, ok := <-lines:
+			if !ok {
+				break loop
+			}
+			switch {
+			case l == "ready":
+				ready = true
+				if s.KillAfter == 0 {
+					kill()
+				}
+			case strings.HasPrefix(l, "ack "):
+				acks++
+				if acks >= s.KillAfter {
+					kill()
+				}
+			case l == "done":
+				kill()
+			case strings.HasPrefix(l, "op error"), strings.HasPrefix(l, "open"), strings.HasPrefix(l, "bad ops"):
+				_ = cmd.Process.Kill()
+				_ = cmd.Wait()
+				c.Fatalf("child failed: %s", l)
+			}
+		case <-deadline:
+			_ = cmd.Process.Kill()
+			_ = cmd.Wait()
+			c.Inconclusive("child did not finish")
+		}
+	}
+	_ = cmd.Wait()
+	if !ready {
+		c.Inconclusive("child did not start")
+	}
+	if acks < len(s.Ops) {
+		c.Label("killed-mid-stream")
+		c.NonTrivial()
+	}
+	c.Labelf("acks:%d0+", acks/10)
+
+	// expected states: after the acknowledged prefix, or with the one in-flight op applied
+	apply := func(n int) map[string]string {
+		m := map[string]string{}
+		for i := 0; i < n && i < len(s.Ops); i++ {
+			o := s.Ops[i]
+			key := fmt.Sprintf("ns/k%d", o.Key)
+			if o.Del {
+				delete(m, key)
+			} else {
+				m[key] = fmt.Sprintf("op-%d", i)
+			}
+		}
+		return m
+	}
+	db, err := vsOpenDB(path)
+	if err != nil {
+		c.Fatalf("database does not open after SIGKILL (%d ops acknowledged): %v", acks, err)
+	}
+	defer storage.VerifClose(db)
+	got := map[string]string{}
+	l, _ := db.List()
+	for _, o := range l {
+		r := o.(daemon.PodResources)
+		if r.PodInfo == nil || len(r.Resources) != 1 {
+			c.Fatalf("corrupt record after SIGKILL: %+v", r)
+		}
+		got["ns/"+r.PodInfo.Name] = r.Resources[0].ID
+	}
+	eq := func(a, b map[string]string) bool {
+		if len(a) != len(b) {
+			return false
+		}
+		for k, v := range a {
+			if b[k] != v {
+				return false
+			}
+		}
+		return true
+	}
+	if !eq(got, apply(acks)) && !eq(got, apply(acks+1)) {
+		c.Fatalf("after SIGKILL with %d acknowledged operations the store holds %v; acknowledged prefix gives %v (with the in-flight operation: %v)", acks, got, apply(acks), apply(acks+1))
+	}
+}
+
+func TestVerifC05Sigkill(t *testing.T) { vt.Run(t, c05KillGen, c05KillRun) }
